@@ -233,7 +233,7 @@ pub fn run(args: &Args) {
                 }
                 cfg.files.push(f);
             }
-            let mut paths: Vec<Vec<u8>> = cfg.files.iter().map(|f| f.dest.trim_start_matches('.').as_bytes().to_vec()).collect();
+            let mut paths: Vec<Vec<u8>> = cfg.files.iter().map(|f| gen_::installed_path(&f.dest).into_bytes()).collect();
             paths.sort();
             match guarded(|| gen_::build(&cfg, &wd)) {
                 Ok(Ok(p)) => {
@@ -285,7 +285,7 @@ pub fn run(args: &Args) {
             special.push((format!("longname:{total}"), cfg));
         }
         for (origin, cfg) in special {
-            let mut paths: Vec<Vec<u8>> = cfg.files.iter().map(|f| f.dest.trim_start_matches('.').as_bytes().to_vec()).collect();
+            let mut paths: Vec<Vec<u8>> = cfg.files.iter().map(|f| gen_::installed_path(&f.dest).into_bytes()).collect();
             paths.sort();
             match guarded(|| gen_::build(&cfg, &wd)) {
                 Ok(Ok(p)) => {
@@ -301,7 +301,7 @@ pub fn run(args: &Args) {
     // random configurations (symlinks, directories, flags ...)
     for i in 0..args.num("n", 40) {
         let cfg = gen_::rand_cfg(&mut rng, 5, 5000);
-        let mut paths: Vec<Vec<u8>> = cfg.files.iter().map(|f| f.dest.trim_start_matches('.').as_bytes().to_vec()).collect();
+        let mut paths: Vec<Vec<u8>> = cfg.files.iter().map(|f| gen_::installed_path(&f.dest).into_bytes()).collect();
         paths.sort();
         if let Ok(Ok(p)) = guarded(|| gen_::build(&cfg, &wd)) {
             let mut bytes = vec![];
@@ -318,7 +318,7 @@ pub fn run(args: &Args) {
                 let mut cfg = gen_::rand_cfg(&mut rng, 4, 600);
                 if j == 1 {
                     // many files: stripped entries carry the file index as 8 hex digits
-                    let mut used: Vec<String> = cfg.files.iter().map(|f| f.dest.trim_start_matches('.').to_string()).collect();
+                    let mut used: Vec<String> = cfg.files.iter().map(|f| gen_::installed_path(&f.dest)).collect();
                     for _ in 0..(12 + 7 * i) {
                         let mut f = gen_::rand_file(&mut rng, &mut used, 40);
                         f.mode = Some(0o100644);
@@ -330,7 +330,7 @@ pub fn run(args: &Args) {
                     let mut used = vec![];
                     cfg.files.push(gen_::rand_file(&mut rng, &mut used, 50));
                 }
-                let mut paths: Vec<Vec<u8>> = cfg.files.iter().map(|f| f.dest.trim_start_matches('.').as_bytes().to_vec()).collect();
+                let mut paths: Vec<Vec<u8>> = cfg.files.iter().map(|f| gen_::installed_path(&f.dest).into_bytes()).collect();
                 paths.sort();
                 match guarded(|| gen_::build(&cfg, &wd)) {
                     Ok(Ok(p)) => {
